@@ -101,7 +101,7 @@ class Nodes(Query[Node]):
 		def factory() -> Node:
 			base = EntryPath(via)
 			elems = list(reversed(base.de_identify().elements))
-			index = elems.index(tag)
+			index = elems.index(tag) if tag in elems else -1
 			if index == -1:
 				raise Errors.NodeNotFound(via, tag)
 
